@@ -8,6 +8,9 @@ mod c01;
 mod c02;
 mod c03;
 mod c03cli;
+mod c04;
+mod c05;
+mod hist;
 mod c06;
 mod asm;
 mod machine;
@@ -44,6 +47,8 @@ fn main() {
         "C01" => "C01",
         "C02" => "C02",
         "C03" => "C03",
+        "C04" => "C04",
+        "C05" => "C05",
         "C06" => "C06",
         _ => usage(),
     };
@@ -52,6 +57,8 @@ fn main() {
         "C01" => c01::run(&ctx),
         "C02" => c02::run(&ctx),
         "C03" => c03::run(&ctx),
+        "C04" => c04::run(&ctx),
+        "C05" => c05::run(&ctx),
         "C06" => c06::run(&ctx),
         _ => unreachable!(),
     }
@@ -78,6 +85,7 @@ fn replay(path: &str) -> i32 {
         "l0" => l0::replay_point(&v),
         "jcc" => c06::replay(&v),
         "l1" => l1::replay(&v),
+        "seq" => hist::replay(&v),
         _ => Err(format!("unknown replay kind '{}'", kind)),
     };
     match r {
